@@ -18,12 +18,7 @@ import os
 from common import sx, parse_sx, err_name, VERIF
 
 # narrow signatures of findings that are reported as KNOWN until the coordinator registers / fixes them
-KNOWN_LOCAL = [
-    {'id': 'C18-shared-array-default', 'property': 'C18', 'status': 'known',
-     'signature': {'kind': 'shared-array-default'},
-     'what': 'reading a never-assigned array field returns the single class-level list Array.default_value; '
-             'mutating it in place changes every other instance and every other array field of every record type'},
-]
+KNOWN_LOCAL = []      # C18-shared-array-default is repaired in /repo fcb8b8f (recorded as `fixed`, suppresses nothing)
 
 _UNIQ = itertools.count()
 
@@ -380,6 +375,28 @@ class Runner:
             elif kind == 'scribble':
                 b = self.bufs[op[1]]
                 b[:] = b'\xff' * len(b)
+            elif kind == 'copy':
+                # obj = read b path_b ; obj[k] = <object read from instance a by path_a>   (FIX: the library copies deeply)
+                fix = lib()[3]
+                obj = self.walk_path(self.insts[op[1]], op[2])
+                if not is_mutable(obj):
+                    raise AttributeError('assignment through a scalar / None')
+                src = self.walk_path(self.insts[op[4]], op[5])
+                if isinstance(src, fix.GroupContainer) and (op[3] + len(op[5])) % 2 == 1:
+                    src = src.groups                  # the list of Group objects instead of the container: same conversion
+                if not isinstance(obj, (fix.DataSegment, list, fix.GroupContainer)):
+                    # binary __setattr__ stores the reference as given (aliasing made by the caller): not exercised
+                    raise TypeError('copy-assign is exercised on FIX segments only')
+                self.note_write(obj)
+                self.set_fld(obj, op[3], src)
+            elif kind == 'clone':
+                fix = lib()[3]
+                a = self.insts[op[1]]
+                if not isinstance(a, fix.Message):
+                    raise TypeError('clone is exercised on FIX messages only')
+                cls = type(a)
+                self.insts.append(cls({seg: cls.SegmentCls[seg].from_value(getattr(a, seg.value))
+                                       for seg in fix.MessageSegments}))
             else:
                 raise ValueError(kind)
             return 'ok', rd
@@ -394,7 +411,7 @@ class Runner:
 def op_target(op, n_before):
     """instance an operation is about; None: nobody (every instance must stay as it is)"""
     k = op[0]
-    if k in ('new', 'decode'):
+    if k in ('new', 'decode', 'clone'):
         return n_before
     if k == 'scribble':
         return None
@@ -489,7 +506,7 @@ def execute(spec, ops, world=None):
                                  f'op {idx}: a new instance of class {op[1]} reads/encodes {sx(views[-1])[:140]}, '
                                  f'a pristine one {sx(pristine[op[1]])[:140]}'))
         # (3) no mutable object is reachable from two instances / a class-level default / a buffer
-        if op[0] in ('new', 'decode', 'assign', 'append', 'setidx') and status == 'ok':
+        if op[0] in ('new', 'decode', 'assign', 'append', 'setidx', 'copy', 'clone') and status == 'ok':
             f = sharing(r)
             if f is not None:
                 findings.append((idx, f[0], f'after op {idx} {sx(op)[:80]}: {f[1]}'))
@@ -591,6 +608,8 @@ def gen_fix_spec(rng):
     groups = []
     for _ in range(rng.choice([1, 2, 2, 3])):
         es = entries(rng.randint(0, 2), groups if rng.random() < 0.5 else [])
+        if groups and not any(e[0] == 'g' for e in es) and rng.random() < 0.6:
+            es.append(['g', next(tags), rng.choice(groups)])              # a nested repeating group
         es.insert(0, ['f', next(tags), rng.choice(['int', 'str'])])      # the delimiter field of the group
         spec.append(['fseg', 'g'] + es)
         groups.append(len(spec) - 1)
@@ -710,10 +729,19 @@ def gen_op(rng, r, allow_default_mutation, max_insts):
     n = len(r.insts)
     tops = w.top_classes()
     shared = r.shared
+    is_fix = any(d[0] == 'fmsg' for d in spec)
     for _ in range(30):
         c = rng.random()
         if n < 2 or (c < 0.08 and n < max_insts):
             return ['new', rng.choice(tops)]
+        if is_fix:
+            u = rng.random()
+            if u < 0.03 and n < max_insts:
+                return ['clone', rng.randrange(n)]
+            if u < 0.16:
+                op = gen_copy(rng, r)
+                if op is not None:
+                    return op
         a = rng.randrange(n)
         inst = r.insts[a]
         if c < 0.16:
@@ -778,6 +806,51 @@ def gen_op(rng, r, allow_default_mutation, max_insts):
         if r.bufs:
             return ['scribble', rng.randrange(len(r.bufs))]
     return ['encode', 0]
+
+
+def has_nested(container):
+    fix = lib()[3]
+    return any(isinstance(v, fix.GroupContainer) and len(v.groups) for g in container.groups for v in g.values.values()) \
+        if all(hasattr(g, 'values') for g in container.groups) else False
+
+
+def gen_copy(rng, r):
+    """FIX: assign to a segment / group of instance b the object reached in instance a (a group container — preferably one
+    whose groups hold nested groups —, sometimes a container of another group class, a scalar, or an unset entry)"""
+    w, spec = r.w, r.w.spec
+    fix = lib()[3]
+    n = len(r.insts)
+    b = rng.randrange(n)
+    a = rng.choice([i for i in range(n) if i != b]) if rng.random() < 0.92 else b
+    nb, na = [], []
+    nodes(r, r.insts[b], [], 6, nb)
+    nodes(r, r.insts[a], [], 6, na)
+    targets = [(p, o) for p, o in nb if isinstance(o, fix.DataSegment) and w.cid.get(type(o)) is not None]
+    if not targets:
+        return None
+    conts = [(p, o) for p, o in na if isinstance(o, fix.GroupContainer)]
+    good, bad = [], []
+    for pb, ob in targets:
+        for e in spec[w.cid[type(ob)]][2:]:
+            if e[0] == 'g':
+                for pa, oa in conts:
+                    (good if w.cid.get(oa.GroupCls) == e[2] else bad).append((pb, e[1], pa, oa))
+    u = rng.random()
+    if good and u < 0.8:
+        deep = [c for c in good if has_nested(c[3])]
+        pb, k, pa, _ = rng.choice(deep if deep and rng.random() < 0.7 else good)
+        return ['copy', b, pb, k, a, pa]
+    if bad and u < 0.87:
+        pb, k, pa, _ = rng.choice(bad)
+        return ['copy', b, pb, k, a, pa]
+    # the same entry of a segment of the same class in a: a scalar, a default, a container or an unset group (None)
+    pb, ob = rng.choice(targets)
+    same = [(p, o) for p, o in na if type(o) is type(ob)]
+    if not same:
+        return None
+    pa, _oa = rng.choice(same)
+    e = rng.choice(spec[w.cid[type(ob)]][2:])
+    return ['copy', b, pb, e[1], a, pa + [['f', e[1]]]]
 
 
 def elem_tree(rng, r, inst, path, obj):
@@ -964,7 +1037,9 @@ def run(ctx):
     quick = ctx.tier == 'quick'
     n_worlds = {'bin': 85 if quick else 480, 'fix': 55 if quick else 320}
     per_world = 4 if quick else 6
-    ctx.cov['rule'] = ('histories of 12-40 operations (new / read / assign / append / setidx / encode / mkbuf / decode / scribble) over 2-4 '
+    ctx.cov['rule'] = ('histories of 12-40 operations (new / read / assign / append / setidx / encode / mkbuf / decode / scribble; FIX also '
+                       'copy = assign to a segment of one instance an object read from another instance, and clone = a message built '
+                       'from from_value copies of another message\'s segments) over 2-5 '
                        'instances of generated binary message types (records with int fields, arrays of ints and of records, nested '
                        'records; ITCH-style application with its own registry) and FIX message types (header/body/trailer segments, '
                        'repeating groups, nested groups); operations are chosen by looking at the live instances; a quarter of the binary '
@@ -975,6 +1050,10 @@ def run(ctx):
         f'the model is asked with `(schema {mode} …)`, so the theorems that apply are '
         + ('the `_partial` ones (hypothesis: no in-place mutation of a list obtained by reading a never-assigned array field) plus Witness/C18.lean'
            if mode == 'shared' else 'the full-strength ones (C18_frame, C18_encode_frame, C18_observe_pure: every history)'))
+    ctx.notes.append('assign-from-another-instance (`copy`) and `clone` are real operations of the Lean model (deep copy: stored graph -> tree '
+                     '-> the conversion of __setitem__ -> fresh cells of the target), covered by the frame theorems and by C18_copy_confined / '
+                     'C18_clone_fresh; they are exercised on FIX only — binary __setattr__ stores the reference it is given, which is aliasing '
+                     'made by the caller and outside the statement')
     ctx.notes.append('a binary message is identified with its body record and a FIX GroupContainer with its groups list; references held by the '
                      'caller across operations are covered by C18_read_owned + C18_held_reference_frame, not by the generated histories')
     # ---- corpus and the Lean witness first
